@@ -9,11 +9,11 @@ from checks import ddcommon
 
 META = {
     "title": "MTBDD add/sub/mul/div/min/max/ite/restrict/constant/var/eval are the pointwise lifting of the terminal arithmetic (function-level model with every terminal_bin short-cut, cache keys, hash-consed terminals), and the terminal arithmetic (I64, F64) is exact/saturating resp. IEEE-754 with NaN and -0 normalised",
-    "technique": "Rocq proofs over hand-written Gallina models. Scalar level: terminal/i64.rs over Z, terminal/f64.rs as Flocq binary64 + the normalisation of F64::from. Function level: coq/DD/ApplyMtbdd.v mirrors oxidd-rules-mtbdd/src/lib.rs (terminal_bin arm by arm, MTBDDOp codes) and apply_rec.rs (apply_bin, apply_ite, restrict with its tail-recursive inner walk, constant/var/eval) on the node-table state of DD/Table.v with hash-consed terminal values and an abstract apply cache; soundness is proved by fuel induction from the scalar laws. Models tied to /repo by differential runs: scalar operations on boundary-set and random operand pairs; the extracted function-level model replayed on snapshots of real MTBDD<I64> managers with the real operand edges (same value table; same edge where the result exists); MTBDD<F64> results compared pointwise with the extracted F64 model",
+    "technique": "Rocq proofs over hand-written Gallina models. Scalar level: terminal/i64.rs over Z, terminal/f64.rs as Flocq binary64 + the normalisation of F64::from. Function level: coq/DD/ApplyMtbdd.v (I64) and its generalisation over the terminal type coq/DD/MtG.v (instances: coq/DD/MtF64.v for F64 on bit patterns, coq/DD/MtI64.v) mirror oxidd-rules-mtbdd/src/lib.rs (terminal_bin arm by arm, MTBDDOp codes) and apply_rec.rs (apply_bin, apply_ite, restrict with its tail-recursive inner walk, constant/var/eval) on the node-table state of DD/Table.v with hash-consed terminal values and an abstract apply cache; soundness is proved by fuel induction from the scalar laws. Models tied to /repo by differential runs: scalar operations on boundary-set and random operand pairs; the extracted function-level model replayed on snapshots of real MTBDD<I64> managers with the real operand edges (same value table; same edge where the result exists); MTBDD<F64> results compared pointwise with the extracted F64 model AND replayed at edge level by the extracted generic model instantiated for F64",
     "category": "proof",
-    "design_ref": "DESIGN.md section 5, C10; notes/C10b.md",
-    "level_text": "Theorems in coq/Props/C10.v (checked by coqc on every run, Print Assumptions audited; the C10_i64_* and C10_mt_* theorems must be closed under the global context). FUNCTION LEVEL (C10_mt_*, integer terminals): for every table satisfying MtOK (well-formed MTBDD table whose terminal values are in the i64 range; decided by the extracted checker mt_ok_b), every apply cache of ANY implementation that only serves what was added (lossy) whose servable entries are correct (MCacheOK), every operand order used for the commutative normalisation and fuel > number of levels: mt_apply_bin op returns (never fails) a reference denoting fun a => i64_op (f a) (g a) for add/sub/mul/div/min/max (C10_mt_apply_bin_lifts, _pointwise in terms of the interpreter semk only, _assignments in terms of variable assignments), mt_apply_ite returns fun a => if f a = 0 then h a else g a (then-operand where the condition is 1), mt_restrict returns the operand's function with the levels of the cube's literals forced (Cube = chain of (x, rest, 0) / (x, 0, rest) nodes ending in 1, proved to denote the product of the literals and recognised by the extracted checker cube_lits); constant and var return the obvious functions; eval computes the interpreter. In every case the table is only extended (nodes and terminals), MtOK and MCacheOK are preserved, and if the result function already has a reference this very reference is returned and nothing is created - hence cache transparency and history independence (C10_mt_cache_transparent, C10_mt_*_history_independent, C10_mt_result_unique), also for the direct-mapped cache model (C10_mt_cache_instances). C10_mt_terminal_bin_sound discharges every arm of terminal_bin from a scalar law (0+x, x+0, x-0, 1*x, x*1, x/1, NaN absorbing, min/max of terminals by partial_cmp, f == g for min/max, operand swap only for add/mul/min/max); the cache-key obligation is part of MCacheOK (key (operator code, a, b) determines the pointwise meaning of the value). The two short-cuts fixed earlier in /repo are refuted at diagram level (C10_mt_sub_zero_shortcut_unsound: returning g for 0 - g; C10_mt_max_under_min_key_unsound: a max result is not a correct entry under the Min key). Hypotheses are satisfiable (C10_mt_hypotheses_satisfiable: a table built by the model itself). SCALAR LEVEL: I64 add/sub/mul/div of in-range operands equal the exact extended-integer result saturated to 64 bits (clamp (ext_op a b)); div truncates toward zero, x/0 = +-inf by the sign of x, MIN/-1 = +inf, undefined forms give NaN; results stay in range; partial_cmp is the order of the extended integers with NaN comparable only to itself. F64: the operations are Flocq's binary64 operations (round to nearest even) followed by the normalisation, which is idempotent; all results are normalised; finite non-overflowing results are the correctly rounded exact results; the short-cut laws hold on normalised values. On every run: scalar differential sweep (extracted models, independent Zarith predicate, real I64/F64); real MTBDD<I64> managers vs. pointwise spec (extracted scalar model) AND vs. the extracted function-level model replayed on the lifted snapshots before and after every operation; real MTBDD<F64> managers vs. the extracted F64 model applied pointwise, with wf_b/canonicity audits on normalised terminal values.",
-    "level_note": "Function-level theorems are for the I64 instance of the model; the MTBDD<F64> function level is covered by the correspondence run only (pointwise extracted F64 scalar model + structure audits), not by a function-level proof (the model's proof uses only the scalar laws, which are also proved for F64 on normalised values, but the instantiation is not carried out). Not modelled: out-of-memory results (AllocResult), reference counts/gc (C05), the multi-threaded recursion (oxidd-rules-mtbdd has none), the debug_assert in apply_ite that a terminal condition is 0 or 1 (the model is the release behaviour: every non-zero condition selects the then-operand; the ite theorem is stated for arbitrary conditions and specialised to 0-1-valued ones), the unobservable edge order f > g (a parameter of the model; theorems hold for every order). The apply cache is abstract (lossy); the direct-mapped cache of DD/Cache.v is an instance. F64 scalar level: the identification of the hardware FPU with Flocq's binary64 is by correspondence on bit patterns, not proved; transitivity of the F64 order is not proved separately. Axioms reported by Print Assumptions for the F64 theorems only (Flocq / Coq Reals, allow-listed by name): ClassicalDedekindReals.sig_forall_dec, ClassicalDedekindReals.sig_not_dec, FunctionalExtensionality.functional_extensionality_dep, Classical_Prop.classic; every C10_i64_* and C10_mt_* theorem is closed under the global context (enforced by this check). Trusted: Coq kernel, extraction (ExtrOcamlBasic), OCaml drivers (c10_main.ml incl. its Zarith re-statement of the property, c10b_main.ml, dd_main.ml), Rust harnesses, the public snapshot API; models are hand-written.",
+    "design_ref": "DESIGN.md section 5, C10; notes/C10b.md, notes/C10f.md",
+    "level_text": "Theorems in coq/Props/C10.v (checked by coqc on every run, Print Assumptions audited; the C10_i64_*, C10_mt_* and C10_mtg_* theorems must be closed under the global context). FUNCTION LEVEL, EVERY TERMINAL TYPE (C10_mtg_*; coq/DD/MtG.v is the model of terminal_bin / apply_bin / apply_ite / restrict / constant / var / eval with the terminal type abstracted into the class talg = NumberBase + partial_cmp + the identity of values for Eq/Hash, as the Rust functions are generic in T: NumberBase): for every terminal algebra satisfying the 26 scalar laws of the class tlaws (coding bijection, is_zero/is_one/is_nan = comparison with the constant, 0 /= 1, closure of the values of the type under the operations, 0+x = x+0 = x-0 = x, 1*x = x*1 = x/1 = x, NaN absorbing for all six operators, commutativity of add/mul/min/max, idempotence of min/max - each only required on values of the type), terminal_bin is sound arm by arm and apply_bin / ite / restrict return the pointwise lifting / selection / cofactor with the same invariants, stability and canonicity clauses as for I64 (C10_mtg_terminal_bin_sound, _apply_bin_lifts, _ite_lifts, _restrict_lifts, _canonical); I64 satisfies the laws without axioms (C10_mtg_i64_laws). FUNCTION LEVEL, MTBDD<F64> (C10_f64_*; values = 64-bit patterns, operations = Flocq binary64 round-to-nearest-even followed by the normalisation of F64::from, coq/Num/F64.v): C10_f64_laws - the float type as the code defines it satisfies every law, BECAUSE values are normalised (C10_f64_zero_shortcut_needs_normalisation: with the operand -0.0 the short-cuts x+0 = x and x-0 = x fail; C10_f64_mul_zero_not_law: the short-cut x*0 = 0 that the code deliberately does not have is refuted, x = +inf gives NaN); C10_f64_invariant - MtOK for F64 tables = well-formed + every terminal value a normalised pattern, decided by the extracted f64m_ok_b; C10_f64_apply_pointwise / _apply_assignments - add/sub/mul/div/min/max return (never fail with fuel > levels) a reference whose value under every choice / assignment is the IEEE-754 operation + normalisation of the operand values, table only extended, invariant and cache correctness kept; C10_f64_cache_transparent, C10_f64_history_independent - result independent of cache contents / implementation / operand order, identical reference in every later state; C10_f64_canonical - equal values under all choices = equal reference, the result is THE reference of its meaning; C10_f64_nan - an operand value NaN gives the result value NaN (the one pattern); C10_f64_normalised - in every table satisfying the invariant, in particular every result table: no terminal holds -0.0, every NaN terminal holds 7ff8000000000000, one terminal per value, hence at most one NaN terminal; C10_f64_ite (else-operand where the condition is 0, then-operand elsewhere - also for conditions that are not 0-1-valued, incl. NaN: the release behaviour), C10_f64_restrict, C10_f64_ite_restrict_history_independent, C10_f64_cube, C10_f64_const (constant through F64::from for an arbitrary pattern), C10_f64_var, C10_f64_eval, C10_f64_operators (the model's operators at the F64 instance are the functions of Num/F64.v), C10_f64_hypotheses_satisfiable (table built by the model: x0, x1, 0.5*x0 + x1; runs producing NaN, +inf and -0.0 candidates). FUNCTION LEVEL (C10_mt_*, integer terminals): for every table satisfying MtOK (well-formed MTBDD table whose terminal values are in the i64 range; decided by the extracted checker mt_ok_b), every apply cache of ANY implementation that only serves what was added (lossy) whose servable entries are correct (MCacheOK), every operand order used for the commutative normalisation and fuel > number of levels: mt_apply_bin op returns (never fails) a reference denoting fun a => i64_op (f a) (g a) for add/sub/mul/div/min/max (C10_mt_apply_bin_lifts, _pointwise in terms of the interpreter semk only, _assignments in terms of variable assignments), mt_apply_ite returns fun a => if f a = 0 then h a else g a (then-operand where the condition is 1), mt_restrict returns the operand's function with the levels of the cube's literals forced (Cube = chain of (x, rest, 0) / (x, 0, rest) nodes ending in 1, proved to denote the product of the literals and recognised by the extracted checker cube_lits); constant and var return the obvious functions; eval computes the interpreter. In every case the table is only extended (nodes and terminals), MtOK and MCacheOK are preserved, and if the result function already has a reference this very reference is returned and nothing is created - hence cache transparency and history independence (C10_mt_cache_transparent, C10_mt_*_history_independent, C10_mt_result_unique), also for the direct-mapped cache model (C10_mt_cache_instances). C10_mt_terminal_bin_sound discharges every arm of terminal_bin from a scalar law (0+x, x+0, x-0, 1*x, x*1, x/1, NaN absorbing, min/max of terminals by partial_cmp, f == g for min/max, operand swap only for add/mul/min/max); the cache-key obligation is part of MCacheOK (key (operator code, a, b) determines the pointwise meaning of the value). The two short-cuts fixed earlier in /repo are refuted at diagram level (C10_mt_sub_zero_shortcut_unsound: returning g for 0 - g; C10_mt_max_under_min_key_unsound: a max result is not a correct entry under the Min key). Hypotheses are satisfiable (C10_mt_hypotheses_satisfiable: a table built by the model itself). SCALAR LEVEL: I64 add/sub/mul/div of in-range operands equal the exact extended-integer result saturated to 64 bits (clamp (ext_op a b)); div truncates toward zero, x/0 = +-inf by the sign of x, MIN/-1 = +inf, undefined forms give NaN; results stay in range; partial_cmp is the order of the extended integers with NaN comparable only to itself. F64: the operations are Flocq's binary64 operations (round to nearest even) followed by the normalisation, which is idempotent; all results are normalised; finite non-overflowing results are the correctly rounded exact results; the short-cut laws hold on normalised values. On every run: scalar differential sweep (extracted models, independent Zarith predicate, real I64/F64); real MTBDD<I64> managers vs. pointwise spec (extracted scalar model) AND vs. the extracted function-level model replayed on the lifted snapshots before and after every operation; real MTBDD<F64> managers vs. the extracted F64 model applied pointwise, with wf_b/canonicity audits on normalised terminal values.",
+    "level_note": "Two function-level developments: DD/ApplyMtbdd*.v (terminal type I64 built in; C10_mt_*) and its generalisation DD/MtG*.v over a class of terminal algebras (C10_mtg_*, instantiated for F64: C10_f64_*); both are replayed against the real managers (I64 traces against the former, F64 traces against the latter); that the generic model at the I64 instance coincides with DD/ApplyMtbdd.v is not proved (different inductive types), only that I64 satisfies the generic laws (C10_mtg_i64_laws). The F64 values of the model are the bit patterns; that every value of the Rust type F64 is a normalised pattern rests on the code paths that create F64 values all going through F64::from (From<f64>, add/sub/mul/div, zero/one/nan constants, and - since fix fb22d96 - ParseTagged::parse; exercised by the harness ops CONSTN / VT / PARSEC and audited on every snapshot by f64m_ok_b), this is not a theorem about the Rust type system. Not modelled: out-of-memory results (AllocResult), reference counts/gc (C05), the multi-threaded recursion (oxidd-rules-mtbdd has none), the debug_assert in apply_ite that a terminal condition is 0 or 1 (the model is the release behaviour: every non-zero condition selects the then-operand; the ite theorem is stated for arbitrary conditions and specialised to 0-1-valued ones), the unobservable edge order f > g (a parameter of the model; theorems hold for every order). The apply cache is abstract (lossy); the direct-mapped cache of DD/Cache.v is an instance. F64 scalar level: the identification of the hardware FPU with Flocq's binary64 is by correspondence on bit patterns, not proved; transitivity of the F64 order is not proved separately. Axioms reported by Print Assumptions for the F64 theorems only (Flocq / Coq Reals, allow-listed by name): ClassicalDedekindReals.sig_forall_dec, ClassicalDedekindReals.sig_not_dec, FunctionalExtensionality.functional_extensionality_dep, Classical_Prop.classic; every C10_i64_* and C10_mt_* theorem is closed under the global context (enforced by this check). Trusted: Coq kernel, extraction (ExtrOcamlBasic), OCaml drivers (c10_main.ml incl. its Zarith re-statement of the property, c10b_main.ml, dd_main.ml), Rust harnesses, the public snapshot API; models are hand-written.",
 }
 
 ALLOWED_AXIOMS = (
@@ -208,7 +208,7 @@ def run(ctx):
                    "function_level_cases_ok": fl_ok, "function_level_cases_bad": len(fl_bad),
                    "model_replay_cases_ok": mt_ok, "model_replay_cases_bad": len(mt_bad),
                    "model_replay": {k: int(v) for k, v in ctx.stats.items() if k.startswith("c10b_")},
-                   "model_replay_rule": "the same MTBDD<I64> traces, second driver (ocaml/c10b_main.ml): every snapshot lifted with the model's terminal coding, mt_ok_b (hypothesis MtOK) evaluated; every ADD/SUB/MUL/DIV/MIN/MAX/ITE/RESTRICT/CONSTN/VAR replayed by the extracted model (mt_apply_bin/mt_apply_ite/mt_restrict/mt_const/mt_var; association-list cache, no cache, two operand orders) on the snapshot before the operation (value table of the model's result == value table of the real result; same edge when the model finds an existing node) and on the first snapshot after it (the model must return the real result edge and create nothing); the RESTRICT cube is rebuilt by the model and recognised by cube_lits; EVAL compared with the extracted mt_eval on all assignments. MTBDD<F64> traces (kind mtbddf: all ordered pairs of the 121 one-variable functions over {0, 1, -1, 0.5, 3, -7, max finite, min subnormal, +-inf, NaN} under the six operators, -0.0 / NaN-with-payload inputs, random histories on 1..4 variables with ite, restrict, gc, reordering): raw value table of every result == extracted Flocq F64 operation applied pointwise, wf_b and canonicity over all handle pairs with terminal value = normalised bit pattern",
+                   "model_replay_f64_rule": "MTBDD<F64> edge level (package C10f; statistics c10b_f64m_*): every snapshot of every mtbddf trace lifted with RAW bit patterns as terminal values, f64m_ok_b evaluated (kind=prop when false); every ADD/SUB/MUL/DIV/MIN/MAX/ITE/RESTRICT/CONSTN/PARSEC/VAR replayed by the extracted generic model at f64_alg (f64m_apply_bin / f64m_apply_ite / f64m_restrict / f64m_const / f64m_var; association-list cache, no cache, two operand orders) on the snapshot before the operation (same value table; same edge when the model finds an existing one) and on the first snapshot after it (the model must return the real result edge and create nothing); RESTRICT cubes rebuilt by the model and recognised by f64m_cube_lits; EVAL vs f64m_eval on all assignments; plus 40 (thorough 400) histories seen only by this driver (ddgen.mtf_case_history_x: ITE with arbitrary condition functions incl. NaN / inf / subnormal values, 0 - x / (0 - x) + x / (-1) * x / 0 / ((-1) * x) chains, max subnormal / min normal / 0.1 / 2^53 / -max / negative subnormal values, PARSEC = constant parsed from a DDDMP terminal description) and corpus/C10/*.mtcase", "model_replay_rule": "the same MTBDD<I64> traces, second driver (ocaml/c10b_main.ml): every snapshot lifted with the model's terminal coding, mt_ok_b (hypothesis MtOK) evaluated; every ADD/SUB/MUL/DIV/MIN/MAX/ITE/RESTRICT/CONSTN/VAR replayed by the extracted model (mt_apply_bin/mt_apply_ite/mt_restrict/mt_const/mt_var; association-list cache, no cache, two operand orders) on the snapshot before the operation (value table of the model's result == value table of the real result; same edge when the model finds an existing node) and on the first snapshot after it (the model must return the real result edge and create nothing); the RESTRICT cube is rebuilt by the model and recognised by cube_lits; EVAL compared with the extracted mt_eval on all assignments. MTBDD<F64> traces (kind mtbddf: all ordered pairs of the 121 one-variable functions over {0, 1, -1, 0.5, 3, -7, max finite, min subnormal, +-inf, NaN} under the six operators, -0.0 / NaN-with-payload inputs, random histories on 1..4 variables with ite, restrict, gc, reordering): raw value table of every result == extracted Flocq F64 operation applied pointwise, wf_b and canonicity over all handle pairs with terminal value = normalised bit pattern",
                    "function_level_rule": "MTBDD<I64> managers: all 121 one-variable functions with terminals from {0,1,-1,2,3,-7,MIN,MAX,+inf,-inf,nan}, every ordered pair under add/sub/mul/div/min/max (both variable orders); random functions over 1..4 variables, histories issuing different operators back to back on the same operands, ite with 0-1-valued conditions, restrict, constant, var, eval, gc and reordering in between; every result lifted to a snapshot, value tables computed by the extracted interpreter, expected values by the extracted I64 model applied pointwise",
                    "evaluations": int(ctx.stats.get("evals", 0)),
                    "cases": int(ctx.stats.get("cases", 0)),
